@@ -76,6 +76,10 @@ impl core::ops::AddAssign for $T { fn add_assign(&mut self, rhs: $T) { self.val 
 /// R6 / R7: `assert!(e)`, `debug_assert!(e)` become a call whose precondition is `e`;
 /// a reachable failing assertion is therefore a failed obligation.
 pub fn vf_assert(b: bool) requires b {}
+/// std functions vstd does not specify (trusted; listed in the evidence)
+pub assume_specification<T, E>[ Result::<T, E>::unwrap_or ](r: Result<T, E>, d: T) -> (o: T)
+    ensures o == (match r { Ok(v) => v, Err(_) => d });
+
 /// must-fail probes: `if vf_nondet() { assert(false); }` -- each probe is independent of the others
 #[verifier::external_body]
 pub const fn vf_nondet() -> (b: bool) { true }
